@@ -26,8 +26,8 @@ RULE = ("a legal floorplan F0 (die = grid of 24-unit slots, one single-trunk ort
         "must be True for F0 and F1 and False for at least one equation of each broken configuration.  "
         "non-trivial = >= 2 modules and >= 1 module with a branch; distinct = distinct case.")
 ASSUMPTIONS = [
-    "groups 'radius' (step cap), 'Exact Value' (time) and 'Rid' are optimiser bookkeeping, not legality, and are not evaluated",
-    "the slack epsilon is annealed by assigning time = 1000 (0.9^1000 x 0.3 < 1e-40); is_equation_met keeps its own absolute tolerance 1e-6",
+    "groups 'radius' (step cap) and 'Rid' are optimiser bookkeeping, not legality, and are not evaluated; 'Exact Value' (the pinned time) is evaluated for the legal configurations only (it must be satisfiable) and never counts as a reason for rejecting an illegal one",
+    "the slack epsilon is annealed with Model.time_advance() in 1-4 steps up to time = 1000 (0.9^1000 x 0.3 < 1e-40); is_equation_met keeps its own absolute tolerance 1e-6",
     "violations are by >= one lattice unit; module overlap is trunk centre on trunk centre, far beyond the documented smoothing tolerance tau^2",
     "the trunk is listed first and no branch is larger than the trunk, so the recogniser keeps the generator's trunk",
 ]
@@ -79,10 +79,10 @@ def cleanup(model):
             shutil.rmtree(p, ignore_errors=True)
 
 
-def equations(model):
+def equations(model, groups=LEGAL_GROUPS):
     eqs = []
     for g, lst in model.gekko.constraints.items():
-        if g in LEGAL_GROUPS:
+        if g in groups:
             eqs += [(g, e) for e in lst]
     for M in model.M:
         for ctrs in M.constraints:
@@ -92,9 +92,9 @@ def equations(model):
     return eqs
 
 
-def unmet(model):
+def unmet(model, groups=LEGAL_GROUPS):
     out = []
-    for g, e in equations(model):
+    for g, e in equations(model, groups):
         try:
             ok = e.is_equation_met()
         except Exception as ex:
@@ -380,18 +380,22 @@ def run_floorplan(c):
         raise Violation("building the legaliser model raised %s: %s for %s" % (type(e).__name__, str(e)[:300], doc_of(c)), "build-raised")
     try:
         maps = index_map(c, model)
-        model.time.assign(1000.0)
+        # the slack is annealed the way the legaliser does it: Model.time_advance() in one or several steps up to time 1000
+        steps = c.get("advance") or [999.0]
+        for dt in steps:
+            model.time_advance(float(dt))
         if LF.get_epsilon() > 1e-30:
             raise RuntimeError("epsilon not annealed: %r" % LF.get_epsilon())
         cls = []
-        # (i) the input configuration
-        bad = unmet(model)
+        # (i) the input configuration (for the legal configurations the time bookkeeping equation is evaluated too: a system
+        # that no configuration can satisfy does not admit the legal floorplans either)
+        bad = unmet(model, LEGAL_GROUPS + ("Exact Value",))
         if bad:
             raise Violation("the input configuration of a legal floorplan violates %s\nnetlist: %s die %sx%s ratio %s" % (
                 bad[:6], doc_of(c), c["cols"] * c["S"], c["rows"] * c["S"], c["ratio"]), "legal-input-rejected:" + bad[0].split("/")[0])
         # (ii) another legal configuration
         assign(model, maps, config_of(c, 1))
-        bad = unmet(model)
+        bad = unmet(model, LEGAL_GROUPS + ("Exact Value",))
         if bad:
             raise Violation("a legal configuration (same structure, soft reshaped, hard translated) violates %s\nnetlist: %s\nF1: %s" % (
                 bad[:6], doc_of(c), config_of(c, 1)), "legal-config-rejected:" + bad[0].split("/")[0])
@@ -434,6 +438,7 @@ def run_floorplan(c):
 def case_s(draw):
     c = draw(FP.floorplan())
     c["viol"] = [[draw(st.sampled_from(VIOLATIONS)), draw(_i(0, 40))] for _ in range(3)]
+    c["advance"] = draw(st.sampled_from([[999], [1, 998], [1, 1, 1, 996], [0.5, 998.5], [499.5, 499.5]]))
     for m in c["modules"]:
         nb = sum(m["struct"].values())
         if nb >= 2 and draw(st.booleans()):
